@@ -142,3 +142,130 @@ Section TreeLevel.
     - destruct (goes_left (dot x v) b); auto.
   Qed.
 End TreeLevel.
+
+(* ---------- the deterministic instance satisfies the relation (the checker is not vacuous: it accepts what a sort-and-slice does) ---------- *)
+Definition asc (s : list Q) : Prop := forall i j, (i <= j < length s)%nat -> nth i s 0 <= nth j s 0.
+
+Lemma fold_qmin_in : forall B m, In (fold_left qmin B m) (m :: B).
+Proof.
+  induction B as [|c B IH]; intros m; cbn [fold_left]; [left; reflexivity|].
+  assert (Hq : qmin m c = c \/ qmin m c = m) by (unfold qmin; destruct (Qle_bool c m); [left|right]; reflexivity).
+  destruct (IH (qmin m c)) as [H|H].
+  - destruct Hq as [Hq|Hq]; rewrite Hq in H at 1; [right; left; exact H|left; exact H].
+  - right. right. exact H.
+Qed.
+
+Lemma all_le_complete e A B : (forall a c, In a A -> In c B -> a <= c + e) -> all_le e A B = true.
+Proof.
+  intros H. unfold all_le. destruct B as [|c0 B']; [reflexivity|].
+  apply forallb_forall. intros a Ha. apply Qleb_true. rewrite Qred_correct.
+  apply H; [exact Ha|]. apply fold_qmin_in.
+Qed.
+
+Lemma in_firstn_nth (s : list Q) k x : In x (firstn k s) -> exists i, (i < k /\ i < length s)%nat /\ x = nth i s 0.
+Proof.
+  revert k. induction s as [|a s IH]; intros k Hx; [rewrite firstn_nil in Hx; destruct Hx|].
+  destruct k as [|k]; [destruct Hx|]. cbn [firstn] in Hx. destruct Hx as [<-|Hx].
+  - exists 0%nat. cbn. split; [lia|reflexivity].
+  - destruct (IH k Hx) as [i [[H1 H2] ->]]. exists (S i). cbn. split; [lia|reflexivity].
+Qed.
+
+Lemma in_skipn_nth (s : list Q) k x : In x (skipn k s) -> exists i, (k <= i < length s)%nat /\ x = nth i s 0.
+Proof.
+  revert k. induction s as [|a s IH]; intros k Hx; [rewrite skipn_nil in Hx; destruct Hx|].
+  destruct k as [|k].
+  - cbn [skipn] in Hx. destruct (In_nth _ _ 0 Hx) as [i [Hi <-]]. exists i. split; [lia|reflexivity].
+  - cbn [skipn] in Hx. destruct (IH k Hx) as [i [Hi ->]]. exists (S i). cbn. split; [lia|reflexivity].
+Qed.
+
+Lemma asc_firstn_skipn (s : list Q) k1 k2 a c : asc s -> (k1 <= k2)%nat -> In a (firstn k1 s) -> In c (skipn k2 s) -> a <= c + 0.
+Proof.
+  intros Hs Hk Ha Hc. destruct (in_firstn_nth _ _ _ Ha) as [i [[Hi1 Hi2] ->]]. destruct (in_skipn_nth _ _ _ Hc) as [j [Hj ->]].
+  specialize (Hs i j ltac:(lia)). lra.
+Qed.
+
+(* counting through positions: in an ascending list the elements below the element at position r sit before r,
+   and the first r+1 positions are <= it *)
+Lemma countb_firstn_skipn {A} (p : A -> bool) (s : list A) r : countb p s = (countb p (firstn r s) + countb p (skipn r s))%nat.
+Proof. rewrite <- (firstn_skipn r s) at 1. apply countb_app. Qed.
+
+Lemma asc_count_lt (s : list Q) r : asc s -> (r < length s)%nat ->
+  (countb (fun p => Qltb (p + 0)%Q (nth r s 0%Q)) s <= r)%nat.
+Proof.
+  intros Hs Hr. rewrite (countb_firstn_skipn _ s r).
+  rewrite (countb_none _ (skipn r s)).
+  - pose proof (countb_le (fun p => Qltb (p + 0) (nth r s 0)) (firstn r s)) as H. rewrite firstn_length in H. lia.
+  - intros x Hx. destruct (in_skipn_nth _ _ _ Hx) as [j [Hj ->]]. specialize (Hs r j ltac:(lia)).
+    destruct (Qltb (nth j s 0 + 0) (nth r s 0)) eqn:E; [|reflexivity]. apply Qltb_true in E. lra.
+Qed.
+
+Lemma asc_count_le (s : list Q) r : asc s -> (r < length s)%nat ->
+  (r + 1 <= countb (fun p => Qleb p (nth r s 0%Q + 0)%Q) s)%nat.
+Proof.
+  intros Hs Hr. rewrite (countb_firstn_skipn _ s (S r)).
+  rewrite (countb_all _ (firstn (S r) s)).
+  - rewrite firstn_length. lia.
+  - intros x Hx. destruct (in_firstn_nth _ _ _ Hx) as [i [[Hi1 Hi2] ->]]. specialize (Hs i r ltac:(lia)).
+    apply Qleb_true. lra.
+Qed.
+
+Lemma skipn_skipn_add {A} a b (l : list A) : skipn a (skipn b l) = skipn (a + b) l.
+Proof.
+  revert l. induction b as [|b IH]; intros l; [rewrite Nat.add_0_r; reflexivity|].
+  destruct l as [|x l]; [rewrite !skipn_nil; reflexivity|]. rewrite Nat.add_succ_r. cbn [skipn]. apply IH.
+Qed.
+Lemma firstn_add_split {A} a b (l : list A) : firstn (a + b) l = firstn a l ++ firstn b (skipn a l).
+Proof.
+  revert l. induction a as [|a IH]; intros l; [reflexivity|].
+  destruct l as [|x l]; [rewrite firstn_nil; cbn; rewrite firstn_nil; reflexivity|]. cbn. f_equal. apply IH.
+Qed.
+
+Theorem model_split_accepted (s : list Q) (o : Z) : asc s -> (0 <= o <= Z.of_nat (length s))%Z -> s <> [] ->
+  rank_split_okb 0 (model_median s) (model_lu s o) (model_ov s o) (model_ru s o) = true.
+Proof.
+  intros Hs Ho Hne.
+  assert (Hn : (1 <= length s)%nat) by (destruct s; [congruence|cbn; lia]).
+  set (n := Z.of_nat (length s)) in *.
+  assert (Hlu : (0 <= left_unique n o <= n)%Z) by (unfold left_unique, remaining; lia).
+  assert (Hoe : (left_unique n o <= overlap_end n o <= n)%Z) by (unfold overlap_end, overlap_start, left_unique, remaining in *; lia).
+  assert (L1 : length (model_lu s o) = Z.to_nat (left_unique n o)).
+  { unfold model_lu. fold n. rewrite firstn_length. lia. }
+  assert (L2 : length (model_ov s o) = Z.to_nat o).
+  { unfold model_ov. fold n. rewrite firstn_length, skipn_length.
+    unfold overlap_end, overlap_start in Hoe. lia. }
+  assert (L3 : length (model_ru s o) = Z.to_nat (n - overlap_end n o)).
+  { unfold model_ru. fold n. rewrite skipn_length. lia. }
+  assert (E1 : model_ov s o ++ model_ru s o = skipn (Z.to_nat (left_unique n o)) s).
+  { unfold model_ov, model_ru. fold n.
+    replace (Z.to_nat (overlap_end n o)) with (Z.to_nat o + Z.to_nat (left_unique n o))%nat
+      by (unfold overlap_end, overlap_start; lia).
+    rewrite <- skipn_skipn_add. apply firstn_skipn. }
+  assert (E2 : model_lu s o ++ model_ov s o = firstn (Z.to_nat (overlap_end n o)) s).
+  { unfold model_lu, model_ov. fold n.
+    replace (Z.to_nat (overlap_end n o)) with (Z.to_nat (left_unique n o) + Z.to_nat o)%nat
+      by (unfold overlap_end, overlap_start; lia).
+    rewrite firstn_add_split. reflexivity. }
+  assert (E3 : model_lu s o ++ model_ov s o ++ model_ru s o = s).
+  { rewrite E1. unfold model_lu. fold n. apply firstn_skipn. }
+  unfold rank_split_okb. rewrite L1, L2, L3, E3, E1, E2.
+  replace (Z.of_nat (Z.to_nat (left_unique n o) + Z.to_nat o + Z.to_nat (n - overlap_end n o))) with n
+    by (unfold overlap_end, overlap_start in *; lia).
+  replace (Z.of_nat (Z.to_nat o)) with o by lia.
+  repeat (apply andb_true_intro; split).
+  - apply Z.eqb_eq. lia.
+  - apply Z.eqb_eq. unfold overlap_end, overlap_start, right_unique, left_unique, remaining in *. lia.
+  - apply all_le_complete. intros a c Ha Hc. unfold model_lu in Ha. fold n in Ha.
+    eapply asc_firstn_skipn; [exact Hs| |exact Ha|exact Hc]. lia.
+  - apply all_le_complete. intros a c Ha Hc. unfold model_ru in Hc. fold n in Hc.
+    eapply asc_firstn_skipn; [exact Hs| |exact Ha|exact Hc]. lia.
+  - assert (Hr : ((length s - 1) / 2 < length s)%nat) by (pose proof (Nat.div_le_upper_bound (length s - 1) 2 (length s - 1)); lia).
+    apply Nat.leb_le. unfold model_median. apply asc_count_lt; assumption.
+  - assert (Hr : ((length s - 1) / 2 < length s)%nat) by (pose proof (Nat.div_le_upper_bound (length s - 1) 2 (length s - 1)); lia).
+    apply Nat.leb_le. unfold model_median. apply asc_count_le; assumption.
+Qed.
+
+(* non-vacuity: an ascending list with ties around the median, overlap 2 *)
+Example model_split_accepted_example :
+  rank_split_okb 0 (model_median [1#2; 1; 1; 1; 3; 7#2; 4]) (model_lu [1#2; 1; 1; 1; 3; 7#2; 4] 2)
+                 (model_ov [1#2; 1; 1; 1; 3; 7#2; 4] 2) (model_ru [1#2; 1; 1; 1; 3; 7#2; 4] 2) = true.
+Proof. vm_compute. reflexivity. Qed.
